@@ -527,3 +527,326 @@ Qed.
 
 Theorem add_total w n : dt_add_ms w n = DOk (w + n * 1000) \/ (dt_add_ms w n = DExc /\ in_range (w + n * 1000) = false).
 Proof. unfold dt_add_ms. destruct (in_range (w + n * 1000)); auto. Qed.
+
+(* ------------------------------------------------------------------ ISO text: printing and reading digits *)
+Lemma adigit_dchar k : 0 <= k <= 9 -> adigit (dchar k) = Some k.
+Proof.
+  intros H. unfold adigit, dchar.
+  destruct (N.leb_spec 48 (Z.to_N (48 + k))); [|lia]. destruct (N.leb_spec (Z.to_N (48 + k)) 57); [|lia].
+  cbn [andb]. f_equal. lia.
+Qed.
+
+Lemma udigit_dchar k : 0 <= k <= 9 -> udigit (dchar k) = Some k.
+Proof.
+  intros H. unfold udigit, digit_val, dchar.
+  destruct (N.ltb_spec (Z.to_N (48 + k)) 128); [|lia].
+  destruct (N.leb_spec 48 (Z.to_N (48 + k))); [|lia]. destruct (N.leb_spec (Z.to_N (48 + k)) 57); [|lia].
+  cbn [andb option_map]. f_equal. lia.
+Qed.
+
+Section DigitParsers.
+Variable dg : N -> option Z.
+Hypothesis dg_dchar : forall k, 0 <= k <= 9 -> dg (dchar k) = Some k.
+
+Lemma take2 v r : 0 <= v < 100 -> take_digits dg 2 (pad2 v ++ r) 0 = Some (v, r).
+Proof.
+  intros H. unfold pad2. cbn [app take_digits].
+  rewrite (dg_dchar (v / 10)) by (dm; lia). rewrite (dg_dchar (v mod 10)) by (dm; lia).
+  f_equal. f_equal. dm. lia.
+Qed.
+
+Lemma take4 v r : 0 <= v < 10000 -> take_digits dg 4 (pad4 v ++ r) 0 = Some (v, r).
+Proof.
+  intros H. unfold pad4. cbn [app take_digits].
+  rewrite (dg_dchar (v / 1000)) by (dm; lia). rewrite (dg_dchar (v / 100 mod 10)) by (dm; lia).
+  rewrite (dg_dchar (v / 10 mod 10)) by (dm; lia). rewrite (dg_dchar (v mod 10)) by (dm; lia).
+  f_equal. f_equal. dm. lia.
+Qed.
+Lemma take2_nil v : 0 <= v < 100 -> take_digits dg 2 (pad2 v) 0 = Some (v, []).
+Proof. intros H. rewrite <- (app_nil_r (pad2 v)). apply take2, H. Qed.
+End DigitParsers.
+
+Lemma expect_cons c r : expect c (c :: r) = Some r.
+Proof. unfold expect. rewrite N.eqb_refl. reflexivity. Qed.
+
+Lemma frac3 v c r : 0 <= v < 1000 -> adigit c = None -> frac_digits 6 (pad3 v ++ c :: r) 0 0 = (v, 3, c :: r).
+Proof.
+  intros H Hc. unfold pad3. cbn [app frac_digits].
+  rewrite (adigit_dchar (v / 100)) by (dm; lia). rewrite (adigit_dchar (v / 10 mod 10)) by (dm; lia).
+  rewrite (adigit_dchar (v mod 10)) by (dm; lia). rewrite Hc. f_equal. f_equal. dm. lia.
+Qed.
+
+(* the fields of an in-range value print with 4/2/2/2/2/2 digits *)
+Lemma fields_digit_ranges f : valid_fields f = true ->
+  0 <= f_year f < 10000 /\ 0 <= f_month f < 100 /\ 0 <= f_day f < 100 /\ 0 <= f_hour f < 100 /\
+  0 <= f_minute f < 100 /\ 0 <= f_second f < 100 /\ 0 <= f_us f / 1000 < 1000.
+Proof.
+  rewrite valid_fields_iff. intros [Hy [Hd [Hh [Hmi [Hs Hus]]]]]. apply valid_date_iff in Hd.
+  pose proof (month_days_bounds (f_year f) (f_month f)). repeat split; try lia; dm; lia.
+Qed.
+
+Definition trunc_fields (f : dtf) : dtf :=
+  mkf (f_year f) (f_month f) (f_day f) (f_hour f) (f_minute f) (f_second f) (f_us f / 1000 * 1000).
+
+Lemma offset_roundtrip o : Z.abs o < 86400 -> o mod 60 = 0 ->
+  let a := Z.abs o in
+  0 <= a / 3600 < 100 /\ 0 <= a / 60 mod 60 < 100 /\
+  (if o <? 0 then - (a / 3600 * 3600 + a / 60 mod 60 * 60) else a / 3600 * 3600 + a / 60 mod 60 * 60) = o.
+Proof. intros H1 H2. cbv zeta. destruct (Z.ltb_spec o 0); dm; lia. Qed.
+
+(* reading back what datetime_text printed: the same fields (microseconds truncated to ms) and the same offset *)
+Lemma parse_datetime_text_gen f o :
+  0 <= f_year f < 10000 /\ 0 <= f_month f < 100 /\ 0 <= f_day f < 100 /\ 0 <= f_hour f < 100 /\
+  0 <= f_minute f < 100 /\ 0 <= f_second f < 100 /\ 0 <= f_us f / 1000 < 1000 ->
+  Z.abs o < 86400 -> o mod 60 = 0 ->
+  parse_date_form (datetime_text f o) = None /\
+  parse_datetime_form (datetime_text f o) = Some (trunc_fields f, o).
+Proof.
+  intros [Ry [Rmo [Rd [Rh [Rmi [Rs Rus]]]]]] Ho Hm.
+  destruct (offset_roundtrip o Ho Hm) as [Roh [Rom Eo]].
+  unfold datetime_text, date_text, time_text, offset_text. rewrite <- !app_assoc. cbn [app].
+  split.
+  - unfold parse_date_form.
+    rewrite (take4 udigit udigit_dchar) by exact Ry. cbn [obind]. rewrite expect_cons. cbn [obind].
+    rewrite (take2 udigit udigit_dchar) by exact Rmo. cbn [obind]. rewrite expect_cons. cbn [obind].
+    rewrite (take2 udigit udigit_dchar) by exact Rd. cbn [obind].
+    unfold pad2 at 1. cbn [app]. reflexivity.
+  - unfold parse_datetime_form.
+    rewrite (take4 adigit adigit_dchar) by exact Ry. cbn [obind]. rewrite expect_cons. cbn [obind].
+    rewrite (take2 adigit adigit_dchar) by exact Rmo. cbn [obind]. rewrite expect_cons. cbn [obind].
+    rewrite (take2 adigit adigit_dchar) by exact Rd. cbn [obind]. rewrite expect_cons. cbn [obind].
+    rewrite (take2 adigit adigit_dchar) by exact Rh. cbn [obind]. rewrite expect_cons. cbn [obind].
+    rewrite (take2 adigit adigit_dchar) by exact Rmi. cbn [obind]. rewrite expect_cons. cbn [obind].
+    rewrite (take2 adigit adigit_dchar) by exact Rs. cbn [obind].
+    set (sign := if o <? 0 then C_DASH else C_PLUS).
+    assert (Hsign : adigit sign = None /\ (sign =? C_DOT)%N = false /\ (sign =? C_Z)%N = false /\
+                    ((sign =? C_PLUS)%N || (sign =? C_DASH)%N) = true /\ (sign =? C_DASH)%N = (o <? 0)).
+    { unfold sign. destruct (o <? 0); repeat split; reflexivity. }
+    destruct Hsign as [S1 [S2 [S3 [S4 S5]]]].
+    set (tail := pad2 (Z.abs o / 3600) ++ C_COLON :: pad2 (Z.abs o / 60 mod 60)).
+    assert (Htail : forall u, (do (us, s) <- Some (u, sign :: tail);
+        match s with
+        | [] => None
+        | [c] => if (c =? C_Z)%N then Some (mkf (f_year f) (f_month f) (f_day f) (f_hour f) (f_minute f) (f_second f) us, 0) else None
+        | c :: (_ :: _) as t =>
+          if (c =? C_PLUS)%N || (c =? C_DASH)%N then
+            do (oh, t) <- take_digits adigit 2 t 0;
+            do t <- expect C_COLON t;
+            do (om, t) <- take_digits adigit 2 t 0;
+            match t with
+            | [] => let o := oh * 3600 + om * 60 in
+                    Some (mkf (f_year f) (f_month f) (f_day f) (f_hour f) (f_minute f) (f_second f) us, if (c =? C_DASH)%N then - o else o)
+            | _ => None
+            end
+          else None
+        end) = Some (mkf (f_year f) (f_month f) (f_day f) (f_hour f) (f_minute f) (f_second f) u, o)).
+    { intros u. cbn [obind]. unfold tail at 1. unfold pad2 at 1. cbn [app]. rewrite S4.
+      unfold tail.
+      rewrite (take2 adigit adigit_dchar) by exact Roh. cbn [obind]. rewrite expect_cons. cbn [obind].
+      rewrite (take2_nil adigit adigit_dchar) by exact Rom. cbn [obind]. rewrite S5. rewrite Eo. reflexivity. }
+    unfold trunc_fields.
+    destruct (Z.eqb_spec (f_us f) 0) as [E0|E0].
+    + cbn [app]. fold tail. rewrite S2.
+      replace (f_us f / 1000 * 1000) with 0 by (rewrite E0; reflexivity). apply Htail.
+    + cbn [app]. rewrite N.eqb_refl. fold tail.
+      rewrite frac3 by (lia || exact S1). change (3 =? 0) with false. cbv iota.
+      change (10 ^ (6 - 3)) with 1000. apply Htail.
+Qed.
+
+
+Lemma parse_datetime_text f o : valid_fields f = true -> Z.abs o < 86400 -> o mod 60 = 0 ->
+  parse_date_form (datetime_text f o) = None /\
+  parse_datetime_form (datetime_text f o) = Some (trunc_fields f, o).
+Proof. intros V. apply parse_datetime_text_gen, fields_digit_ranges, V. Qed.
+
+(* ------------------------------------------------------------------ ISO round trip in an arbitrary zone *)
+Lemma trunc_ms_range w : in_range w = true -> in_range (trunc_ms w) = true.
+Proof.
+  unfold in_range, trunc_ms. replace MIN_US with (-62135596800000000) by reflexivity.
+  replace MAX_US with 253402300799999999 by reflexivity. intros H. dm. lia.
+Qed.
+
+Lemma trunc_ms_idem w : trunc_ms (trunc_ms w) = trunc_ms w.
+Proof. unfold trunc_ms. dm. lia. Qed.
+
+Lemma trunc_ms_shift w k : trunc_ms (w + k * 1000) = trunc_ms w + k * 1000.
+Proof. unfold trunc_ms. dm. lia. Qed.
+
+Lemma of_trunc_fields_gen f : of_fields (trunc_fields f) = of_fields f - f_us f + f_us f / 1000 * 1000.
+Proof. unfold of_fields, trunc_fields. cbn [f_year f_month f_day f_hour f_minute f_second f_us]. lia. Qed.
+
+Lemma f_us_fields w : f_us (fields w) = w mod US_DAY mod US_SEC.
+Proof. unfold fields. destruct (civil_from_days (w / US_DAY)) as [[y m] d]. reflexivity. Qed.
+
+Lemma us_trunc_arith w : w - w mod 86400000000 mod 1000000 + w mod 86400000000 mod 1000000 / 1000 * 1000 = w - w mod 1000.
+Proof. dm. lia. Qed.
+
+Lemma of_trunc_fields w : of_fields (trunc_fields (fields w)) = trunc_ms w.
+Proof.
+  rewrite of_trunc_fields_gen, of_fields_fields, f_us_fields. unfold trunc_ms. apply us_trunc_arith.
+Qed.
+
+Lemma trunc_fields_valid f : valid_fields f = true -> valid_fields (trunc_fields f) = true.
+Proof.
+  rewrite !valid_fields_iff. unfold trunc_fields. cbn [f_year f_month f_day f_hour f_minute f_second f_us].
+  intros [Hy [Hd [Hh [Hmi [Hs Hus]]]]]. repeat split; try tauto; try lia; dm; lia.
+Qed.
+
+Section ZoneFacts.
+Variable off_local : Z -> Z.
+Variable off_utc : Z -> Z.
+
+(* THEOREM (ISO round trip), for EVERY pair of offset functions: a wall time w that exists in the zone, whose offset is a
+   whole number of minutes (and less than a day), and whose UTC instant is representable, formats to a text that
+   parses back to w truncated to the millisecond.  [Hms]: the offset in force does not change inside the millisecond
+   of w (trivially true when w is a whole number of milliseconds, see the corollary). *)
+Theorem iso_roundtrip w :
+  in_range w = true ->
+  exists_in_zone off_local off_utc w = true ->
+  Z.abs (off_local w) <? 86400 = true -> off_local w mod 60 =? 0 = true ->
+  in_range (w - off_local w * US_SEC) = true ->
+  off_utc (trunc_ms w - off_local w * US_SEC) =? off_utc (w - off_local w * US_SEC) = true ->
+  exists s, iso_format off_local off_utc w = DOk s /\ iso_parse off_utc s = Some (trunc_ms w).
+Proof.
+  intros Hw Hex Habs Hmin Hu Hms.
+  apply Z.eqb_eq in Hex, Hmin, Hms. apply Z.ltb_lt in Habs.
+  set (o := off_local w) in *.
+  unfold iso_format, astimezone_naive. fold o. rewrite Hu. unfold exists_in_zone in Hex. fold o in Hex. rewrite Hex.
+  replace (w - o * US_SEC + o * US_SEC) with w by lia. rewrite Hw. cbn [dbind fst snd].
+  eexists. split; [reflexivity|].
+  assert (V : valid_fields (fields w) = true) by (rewrite <- in_range_fields; exact Hw).
+  destruct (parse_datetime_text (fields w) o V Habs Hmin) as [P1 P2].
+  unfold iso_parse. rewrite P1, P2. rewrite trunc_fields_valid by exact V.
+  destruct (Z.ltb_spec (Z.abs o) 86400); [|lia]. cbn [andb].
+  rewrite of_trunc_fields.
+  assert (Hk : o * US_SEC = (o * 1000) * 1000) by (unfold US_SEC; lia).
+  assert (Hu' : in_range (trunc_ms w - o * US_SEC) = true).
+  { replace (trunc_ms w - o * US_SEC) with (trunc_ms (w - o * US_SEC)).
+    - apply trunc_ms_range, Hu.
+    - rewrite Hk. replace (w - o * 1000 * 1000) with (w + (- (o * 1000)) * 1000) by lia. rewrite trunc_ms_shift. lia. }
+  rewrite Hu'. rewrite Hms, Hex.
+  replace (trunc_ms w - o * US_SEC + o * US_SEC) with (trunc_ms w) by lia.
+  rewrite trunc_ms_range by exact Hw. rewrite trunc_ms_idem. reflexivity.
+Qed.
+
+(* for datetimes that are a whole number of milliseconds (everything datetimeNew and integral +/- produce) the last
+   hypothesis disappears *)
+Corollary iso_roundtrip_whole_ms w :
+  in_range w = true -> w mod 1000 = 0 ->
+  exists_in_zone off_local off_utc w = true ->
+  Z.abs (off_local w) <? 86400 = true -> off_local w mod 60 =? 0 = true ->
+  in_range (w - off_local w * US_SEC) = true ->
+  exists s, iso_format off_local off_utc w = DOk s /\ iso_parse off_utc s = Some w.
+Proof.
+  intros Hw Hm Hex Habs Hmin Hu.
+  assert (T : trunc_ms w = w) by (unfold trunc_ms; lia).
+  destruct (iso_roundtrip w) as [s [F P]]; auto; [rewrite T; apply Z.eqb_refl|].
+  exists s. rewrite T in P. auto.
+Qed.
+
+(* the formatter never invents an exception: it fails only when the UTC instant (or its local reading) leaves
+   year 1..9999 *)
+Theorem iso_format_total w :
+  (exists s, iso_format off_local off_utc w = DOk s) \/
+  (iso_format off_local off_utc w = DExc /\
+   (in_range (w - off_local w * US_SEC) = false \/
+    in_range (w - off_local w * US_SEC + off_utc (w - off_local w * US_SEC) * US_SEC) = false)).
+Proof.
+  unfold iso_format, astimezone_naive. destruct (in_range (w - off_local w * US_SEC)); [|right; auto].
+  destruct (in_range (w - off_local w * US_SEC + off_utc (w - off_local w * US_SEC) * US_SEC)); [left|right; auto].
+  eexists. reflexivity.
+Qed.
+
+End ZoneFacts.
+
+Section ParseFacts.
+Variable off_utc : Z -> Z.
+
+(* THEOREM (parse is total): any text gives null or a representable whole-millisecond datetime; the result type has
+   no exception constructor *)
+Theorem parse_total s :
+  iso_parse off_utc s = None \/ exists w, iso_parse off_utc s = Some w /\ in_range w = true /\ w mod 1000 = 0.
+Proof.
+  unfold iso_parse. destruct (parse_date_form s) as [[[y m] d]|].
+  - destruct (py_datetime (mkf y m d 0 0 0 0)) as [w| |] eqn:E; cbn [dres_opt]; auto.
+    right. exists w. split; [reflexivity|]. apply py_datetime_ok in E. destruct E as [_ [E [_ R]]]. split; [exact R|].
+    rewrite E. unfold of_fields. cbn [f_year f_month f_day f_hour f_minute f_second f_us]. unfold US_DAY, US_SEC. dm. lia.
+  - destruct (parse_datetime_form s) as [[f o]|]; auto.
+    destruct (valid_fields f && (Z.abs o <? 86400)); auto.
+    destruct (in_range (of_fields f - o * US_SEC)); auto.
+    destruct (in_range (of_fields f - o * US_SEC + off_utc (of_fields f - o * US_SEC) * US_SEC)) eqn:R; auto.
+    right. eexists. split; [reflexivity|]. split; [apply trunc_ms_range, R|]. unfold trunc_ms. dm. lia.
+Qed.
+
+(* invalid field values are rejected: a well-shaped text whose fields are not a real date/time parses to null *)
+Theorem parse_rejects_invalid_fields f o :
+  0 <= f_year f < 10000 -> 0 <= f_month f < 100 -> 0 <= f_day f < 100 -> 0 <= f_hour f < 100 ->
+  0 <= f_minute f < 100 -> 0 <= f_second f < 100 -> 0 <= f_us f < 1000000 -> Z.abs o < 86400 -> o mod 60 = 0 ->
+  valid_fields f = false -> iso_parse off_utc (datetime_text f o) = None.
+Proof.
+  intros Ry Rmo Rd Rh Rmi Rs Rus Ho Hm V.
+  destruct (parse_datetime_text_gen f o) as [P1 P2]; auto.
+  { repeat split; try lia; dm; lia. }
+  unfold iso_parse. rewrite P1, P2.
+  assert (V' : valid_fields (trunc_fields f) = false).
+  { destruct (valid_fields (trunc_fields f)) eqn:E; [|reflexivity]. rewrite <- V. symmetry.
+    apply valid_fields_iff in E. apply valid_fields_iff. unfold trunc_fields in E.
+    cbn [f_year f_month f_day f_hour f_minute f_second f_us] in E. intuition lia. }
+  rewrite V'. reflexivity.
+Qed.
+(* datetimeISOFormat(d, true) -> datetimeISOParse gives midnight of the same day, in any zone *)
+Theorem iso_date_roundtrip w : in_range w = true -> iso_parse off_utc (iso_format_date w) = Some (w - w mod US_DAY).
+Proof.
+  intros Hw. assert (V : valid_fields (fields w) = true) by (rewrite <- in_range_fields; exact Hw).
+  pose proof (fields_digit_ranges _ V) as [Ry [Rmo [Rd _]]].
+  unfold iso_parse, iso_format_date, date_text. cbn [app].
+  unfold parse_date_form.
+  rewrite (take4 udigit udigit_dchar) by exact Ry. cbn [obind]. rewrite expect_cons. cbn [obind].
+  rewrite (take2 udigit udigit_dchar) by exact Rmo. cbn [obind]. rewrite expect_cons. cbn [obind].
+  rewrite (take2_nil udigit udigit_dchar) by exact Rd. cbn [obind].
+  assert (V0 : valid_fields (mkf (f_year (fields w)) (f_month (fields w)) (f_day (fields w)) 0 0 0 0) = true).
+  { apply valid_fields_iff in V. apply valid_fields_iff. cbn [f_year f_month f_day f_hour f_minute f_second f_us]. intuition lia. }
+  unfold py_datetime. rewrite V0. cbn [dres_opt]. f_equal.
+  pose proof (of_fields_fields w) as E. unfold of_fields in *.
+  cbn [f_year f_month f_day f_hour f_minute f_second f_us].
+  assert (Hd : days_from_civil (f_year (fields w), f_month (fields w), f_day (fields w)) = w / US_DAY).
+  { unfold fields. destruct (dfc_of_civil (w / US_DAY)) as [D _]. destruct (civil_from_days (w / US_DAY)) as [[y m] d]. exact D. }
+  rewrite Hd. unfold US_DAY, US_SEC. dm. lia.
+Qed.
+End ParseFacts.
+
+(* ------------------------------------------------------------------ non-vacuity *)
+(* a zone with a DST transition: UTC-5 before 2024-03-10T07:00:00Z, UTC-4 after; wall times 02:00-03:00 do not exist *)
+Definition ex_T : Z := 1710054000000000.
+Definition ex_off_utc (u : Z) : Z := if u <? ex_T then -18000 else -14400.
+Definition ex_off_local (w : Z) : Z := if w <? ex_T - 18000 * US_SEC + 3600 * US_SEC then -18000 else -14400.
+Definition ex_w_before : Z := 1710034200123456.   (* 2024-03-10T01:30:00.123456 *)
+Definition ex_w_gap : Z := 1710037800000000.      (* 2024-03-10T02:30:00 *)
+Definition ex_w_after : Z := 1710041400000000.    (* 2024-03-10T03:30:00 *)
+
+Example ex_roundtrip_hyps :
+  in_range ex_w_before = true /\ exists_in_zone ex_off_local ex_off_utc ex_w_before = true /\
+  (Z.abs (ex_off_local ex_w_before) <? 86400) = true /\ (ex_off_local ex_w_before mod 60 =? 0) = true /\
+  in_range (ex_w_before - ex_off_local ex_w_before * US_SEC) = true /\
+  (ex_off_utc (trunc_ms ex_w_before - ex_off_local ex_w_before * US_SEC) =? ex_off_utc (ex_w_before - ex_off_local ex_w_before * US_SEC)) = true /\
+  iso_format ex_off_local ex_off_utc ex_w_before = DOk (U "2024-03-10T01:30:00.123-05:00") /\
+  iso_parse ex_off_utc (U "2024-03-10T01:30:00.123-05:00") = Some (trunc_ms ex_w_before) /\
+  exists_in_zone ex_off_local ex_off_utc ex_w_gap = false /\
+  iso_format ex_off_local ex_off_utc ex_w_gap = DOk (U "2024-03-10T03:30:00-04:00") /\
+  exists_in_zone ex_off_local ex_off_utc ex_w_after = true.
+Proof. vm_compute. repeat split; reflexivity. Qed.
+
+Example ex_new :
+  dtnew_args_ok 2022 0 15 6 30 15 250 = true /\
+  option_map fields (dres_opt (datetime_new 2022 0 15 6 30 15 250)) = Some (mkf 2021 12 15 6 30 15 250000) /\
+  option_map fields (dres_opt (datetime_new 2024 40 (-10000) 5000 (-5000) 5000 (-5000))) = Some (mkf 2000 6 4 22 3 15 0) /\
+  datetime_new 9997 40 1 0 0 0 0 = DExc /\ datetime_new 99 1 1 0 0 0 0 = DExc.
+Proof. vm_compute. repeat split; reflexivity. Qed.
+
+Example ex_parse :
+  iso_parse ex_off_utc (U "2024-02-30") = None /\ iso_parse ex_off_utc (U "2024-01-01T24:00:00Z") = None /\
+  iso_parse ex_off_utc (U "2024-01-01T10:00:00") = None /\ iso_parse ex_off_utc (U "junk") = None /\
+  option_map fields (iso_parse ex_off_utc (U "2024-02-29")) = Some (mkf 2024 2 29 0 0 0 0) /\
+  option_map fields (iso_parse ex_off_utc (U "2024-07-01T12:00:00.5Z")) = Some (mkf 2024 7 1 8 0 0 500000).
+Proof. vm_compute. repeat split; reflexivity. Qed.
+
